@@ -703,3 +703,34 @@ def fam_selfmon(tier, base):
 prop("C28", "selfmon", "TLC-simulated histories over two real (non-test) nodes with up to 2 workloads each; the watcher is started before or after the lapses; statuses polled for up to 12 s (normal reaction < 0.3 s); non-trivial = histories with a watcher and a lapse",
      _A_CL[:1] + ["etcd store only: the node-status stream needs store notifications, which the offline redis (miniredis) does not emit", "real nodes have an unreachable engine endpoint; workloads are recorded through the store and reported up by a simulated agent (status with TTL 0)",
                   "'eventually' = within 12 s of the end of the history"])
+
+
+# =========================================================================== Discovery: C27
+@family("discovery")
+def fam_discovery(tier, base):
+    q = tier == "quick"
+    r = verif.model_check("MC_Discovery", "MC_Discovery_ok.cfg", timeout=3000)
+    # the named deviation: with a stalled subscriber the design itself loses liveness (TLC must exhibit it)
+    rs = verif.tlc("MC_Discovery", "MC_Discovery_stalled.cfg", timeout=3000)
+    if rs.error != "property":
+        raise Broken("Discovery model with a stalled subscriber: expected a liveness counterexample, got %s" % rs.error)
+    inputs, trace = base + ".in.ndjson", base + ".trace.ndjson"
+    seen = set()
+    with open(inputs, "w") as f:
+        n, gen = _sim_inputs("MC_Discovery", "MC_Discovery_sim.cfg", 30 if q else 500, 60, f, seen, keep=70 if q else 1500)
+        n2, gen2 = _sim_inputs("MC_Discovery", "MC_Discovery_simstalled.cfg", 10, 60, f, seen, keep=6 if q else 60)
+    b = verif.build_driver("cluster")
+    verif.run_driver_sharded(b, "TestClusterDiscovery", inputs, trace, shards=14, timeout=7000)
+    os.remove(inputs)
+    viols, tr = verif.validate_trace("Trace_Discovery", "Trace_Discovery.cfg", trace)
+    lines = verif.read_lines(trace)
+    cnt = lambda s: sum(1 for ln in lines if s in ln)
+    return dict(trace=trace, viols=viols, states=r.distinct, transitions=r.generated + gen + gen2, configs=["MC_Discovery_ok.cfg", "MC_Discovery_stalled.cfg", "MC_Discovery_sim.cfg", "MC_Discovery_simstalled.cfg", "Trace_Discovery.cfg"], window=1,
+                exhaustive=False, traces={"*": len(lines)}, samples={"*": [json.loads(x) for x in lines[:2]]},
+                nontrivial={"C27": cnt('"op":"sub"')},
+                notes="model: 2 addresses, reader + slow reader, every interleaving of 4 environment steps with the single-goroutine dispatch loop, liveness (Converges, UnsubscribeCompletes) under strong fairness of the select cases - holds; with a stalled subscriber TLC exhibits the loss of liveness (checked to still be exhibited); code: %d simulated schedules of 8 steps (+%d with a stalled subscriber) on the real etcd service stream and helium (push interval 1 s)" % (n, n2))
+
+
+prop("C27", "discovery", "TLC-simulated schedules of register / deregister / subscribe / unsubscribe over 3 addresses and 3 subscribers (reader, slow reader 300 ms per message, reader), plus schedules with a subscriber that stops reading; final state judged one push interval + allowance after the last step; non-trivial = schedules with a subscriber",
+     ["real store/etcdv3 service stream on an embedded etcd and the real discovery/helium dispatcher (push interval 1 s, the minimum it accepts); registrations through store.RegisterService (what Calcium.RegisterService calls)",
+      "convergence is judged 2.6 s after the last step (one interval + the slow reader's lag + allowance); an unsubscribe must return within 6 s", "etcd only: miniredis emits no keyspace notifications"])
